@@ -177,100 +177,131 @@ theorem callee_copy_accepted : noParamWriteEntry plotShapeRepaired 0 = true := b
 section
 variable {α : Type} [Inhabited α]
 
-/-- **compare_2d shows exactly the data.**  For all frames and all requested columns `a`, `b` that exist
-(at positions `i`, `j`), the figure is built, the points under label Real are exactly the rows of
-`real[[a, b]]` — each once, in order — the points under label Synthetic are exactly the rows of
-`synth[[a, b]]`, and no label heads two traces.  (The model reads both frames with `real.cols`; the
-harness generates frames with equal column lists.) -/
-theorem compare2d_exact (real synth : Frame α) (a b : String) (i j : Nat)
+/-- **compare_2d shows exactly the data.**  For all frames, all requested columns `a`, `b` that exist (at
+positions `i`, `j`) and with or without an explicit title, the figure is built, the points under label
+Real are exactly the rows of `real[[a, b]]` — each once, in order — the points under label Synthetic are
+exactly the rows of `synth[[a, b]]`, and no label heads two traces.  (The model reads both frames with
+`real.cols`; the harness generates frames with equal column lists.) -/
+theorem compare2d_exact (real synth : Frame α) (a b : String) (i j : Nat) (titled : Bool)
     (ha : colIndex real.cols a = some i) (hb : colIndex real.cols b = some j) :
-    ∃ ts, compare2d real synth (some [a, b]) = .ok ts ∧
+    ∃ ts, compare2d real synth (some [a, b]) titled = .ok ts ∧
       pointsOf ts .real = real.rows.map (fun r => (cell r i, cell r j)) ∧
       pointsOf ts .synthetic = synth.rows.map (fun r => (cell r i, cell r j)) ∧
       (ts.map (·.1)).Nodup := by
-  refine ⟨_, ?_, (points_concat real synth (fun r => (cell r i, cell r j))).1, (points_concat real synth (fun r => (cell r i, cell r j))).2,
-    splitByLabel_labels_nodup _⟩
-  simp [compare2d, generate2d, plotColumns, ha, hb]
+  refine ⟨_, ?_, (points_concat real synth (fun r => (cell r i, cell r j))).1,
+    (points_concat real synth (fun r => (cell r i, cell r j))).2, splitByLabel_labels_nodup _⟩
+  cases titled <;> simp [compare2d, titleStep, generate2d, plotColumns, ha, hb, Except.bind]
 
-theorem scatter2d_exact (data : Frame α) (a b : String) (i j : Nat)
+theorem scatter2d_exact (data : Frame α) (a b : String) (i j : Nat) (titled : Bool)
     (ha : colIndex data.cols a = some i) (hb : colIndex data.cols b = some j) :
-    ∃ ts, scatter2d data (some [a, b]) = .ok ts ∧
+    ∃ ts, scatter2d data (some [a, b]) titled = .ok ts ∧
       pointsOf ts .real = data.rows.map (fun r => (cell r i, cell r j)) ∧
       pointsOf ts .synthetic = [] ∧ (ts.map (·.1)).Nodup := by
-  refine ⟨_, ?_, (points_single data (fun r => (cell r i, cell r j))).1, (points_single data (fun r => (cell r i, cell r j))).2, splitByLabel_labels_nodup _⟩
-  simp [scatter2d, generate2d, plotColumns, ha, hb]
+  refine ⟨_, ?_, (points_single data (fun r => (cell r i, cell r j))).1,
+    (points_single data (fun r => (cell r i, cell r j))).2, splitByLabel_labels_nodup _⟩
+  cases titled <;> simp [scatter2d, titleStep, generate2d, plotColumns, ha, hb, Except.bind]
 
-theorem compare3d_exact (real synth : Frame α) (a b c : String) (i j k : Nat)
+theorem compare3d_exact (real synth : Frame α) (a b c : String) (i j k : Nat) (titled : Bool)
     (ha : colIndex real.cols a = some i) (hb : colIndex real.cols b = some j)
     (hc : colIndex real.cols c = some k) :
-    ∃ ts, compare3d real synth (some [a, b, c]) = .ok ts ∧
+    ∃ ts, compare3d real synth (some [a, b, c]) titled = .ok ts ∧
       pointsOf ts .real = real.rows.map (fun r => (cell r i, cell r j, cell r k)) ∧
       pointsOf ts .synthetic = synth.rows.map (fun r => (cell r i, cell r j, cell r k)) ∧
       (ts.map (·.1)).Nodup := by
-  refine ⟨_, ?_, (points_concat real synth (fun r => (cell r i, cell r j, cell r k))).1, (points_concat real synth (fun r => (cell r i, cell r j, cell r k))).2,
-    splitByLabel_labels_nodup _⟩
-  simp [compare3d, generate3d, plotColumns, ha, hb, hc]
+  refine ⟨_, ?_, (points_concat real synth (fun r => (cell r i, cell r j, cell r k))).1,
+    (points_concat real synth (fun r => (cell r i, cell r j, cell r k))).2, splitByLabel_labels_nodup _⟩
+  cases titled <;> simp [compare3d, titleStep, generate3d, plotColumns, ha, hb, hc, Except.bind]
 
-theorem scatter3d_exact (data : Frame α) (a b c : String) (i j k : Nat)
+theorem scatter3d_exact (data : Frame α) (a b c : String) (i j k : Nat) (titled : Bool)
     (ha : colIndex data.cols a = some i) (hb : colIndex data.cols b = some j)
     (hc : colIndex data.cols c = some k) :
-    ∃ ts, scatter3d data (some [a, b, c]) = .ok ts ∧
+    ∃ ts, scatter3d data (some [a, b, c]) titled = .ok ts ∧
       pointsOf ts .real = data.rows.map (fun r => (cell r i, cell r j, cell r k)) ∧
       pointsOf ts .synthetic = [] ∧ (ts.map (·.1)).Nodup := by
-  refine ⟨_, ?_, (points_single data (fun r => (cell r i, cell r j, cell r k))).1, (points_single data (fun r => (cell r i, cell r j, cell r k))).2, splitByLabel_labels_nodup _⟩
-  simp [scatter3d, generate3d, plotColumns, ha, hb, hc]
+  refine ⟨_, ?_, (points_single data (fun r => (cell r i, cell r j, cell r k))).1,
+    (points_single data (fun r => (cell r i, cell r j, cell r k))).2, splitByLabel_labels_nodup _⟩
+  cases titled <;> simp [scatter3d, titleStep, generate3d, plotColumns, ha, hb, hc, Except.bind]
 
 /-- **Default columns.**  With `columns=None` (or the empty list, `if columns:`) the builders use the
 frame's own columns: on a two-column frame the default is its two columns, on a three-column frame
 its three columns (the first two/three — and, as found, a default plot of a wider frame is a
 `ValueError`, see `wrong_arity_2d`). -/
-theorem default_columns_2d (real synth : Frame α) (a b : String) (h : real.cols = [a, b]) :
-    compare2d real synth none = compare2d real synth (some [a, b]) ∧
-    compare2d real synth (some []) = compare2d real synth (some [a, b]) ∧
-    scatter2d real none = scatter2d real (some [a, b]) := by
-  simp [compare2d, scatter2d, generate2d, plotColumns, h]
+theorem default_columns_2d (real synth : Frame α) (a b : String) (titled : Bool) (h : real.cols = [a, b]) :
+    compare2d real synth none titled = compare2d real synth (some [a, b]) titled ∧
+    compare2d real synth (some []) titled = compare2d real synth (some [a, b]) titled ∧
+    scatter2d real none titled = scatter2d real (some [a, b]) titled := by
+  cases titled <;> simp [compare2d, scatter2d, titleStep, generate2d, plotColumns, h]
 
-theorem default_columns_3d (real synth : Frame α) (a b c : String) (h : real.cols = [a, b, c]) :
-    compare3d real synth none = compare3d real synth (some [a, b, c]) ∧
-    compare3d real synth (some []) = compare3d real synth (some [a, b, c]) ∧
-    scatter3d real none = scatter3d real (some [a, b, c]) := by
-  simp [compare3d, scatter3d, generate3d, plotColumns, h]
+theorem default_columns_3d (real synth : Frame α) (a b c : String) (titled : Bool) (h : real.cols = [a, b, c]) :
+    compare3d real synth none titled = compare3d real synth (some [a, b, c]) titled ∧
+    compare3d real synth (some []) titled = compare3d real synth (some [a, b, c]) titled ∧
+    scatter3d real none titled = scatter3d real (some [a, b, c]) titled := by
+  cases titled <;> simp [compare3d, scatter3d, titleStep, generate3d, plotColumns, h]
 
-/-- **Wrong arity ⇒ ValueError**: a non-empty request that does not name exactly two columns, or a
-default request on a frame that does not have exactly two columns. -/
-theorem wrong_arity_2d (real synth : Frame α) (cs : List String) :
-    (cs ≠ [] → cs.length ≠ 2 →
-      compare2d real synth (some cs) = .error .valueError ∧ scatter2d real (some cs) = .error .valueError) ∧
+/-- **Wrong arity ⇒ ValueError** — for a request with too many names, for a request with too few names when
+a title is given, and for a default request on a frame that does not have exactly two columns. -/
+theorem wrong_arity_2d (real synth : Frame α) (cs : List String) (titled : Bool) :
+    (2 < cs.length →
+      compare2d real synth (some cs) titled = .error .valueError ∧
+      scatter2d real (some cs) titled = .error .valueError) ∧
+    (cs.length = 1 →
+      compare2d real synth (some cs) true = .error .valueError ∧
+      scatter2d real (some cs) true = .error .valueError) ∧
     (real.cols.length ≠ 2 →
-      compare2d real synth none = .error .valueError ∧ scatter2d real none = .error .valueError) := by
-  constructor
-  · intro hne hlen
-    match cs, hne, hlen with
-    | [_], _, _ => simp [compare2d, scatter2d, generate2d, plotColumns]
-    | _ :: _ :: _ :: _, _, _ => simp [compare2d, scatter2d, generate2d, plotColumns]
+      compare2d real synth none titled = .error .valueError ∧ scatter2d real none titled = .error .valueError) := by
+  refine ⟨?_, ?_, ?_⟩
+  · intro hlen
+    match cs, hlen with
+    | _ :: _ :: _ :: t, _ =>
+      have h : ¬ (t.length + 1 + 1 + 1 < 2) := by omega
+      cases titled <;> simp [compare2d, scatter2d, titleStep, generate2d, plotColumns, Except.bind, h]
+  · intro hlen
+    match cs, hlen with
+    | [_], _ => simp [compare2d, scatter2d, titleStep, generate2d, plotColumns, Except.bind]
   · intro hlen
     match hc : real.cols, hlen with
-    | [], _ => simp [compare2d, scatter2d, generate2d, plotColumns, hc]
-    | [_], _ => simp [compare2d, scatter2d, generate2d, plotColumns, hc]
-    | _ :: _ :: _ :: _, _ => simp [compare2d, scatter2d, generate2d, plotColumns, hc]
+    | [], _ => simp [compare2d, scatter2d, titleStep, generate2d, plotColumns, hc, Except.bind]
+    | [_], _ => simp [compare2d, scatter2d, titleStep, generate2d, plotColumns, hc, Except.bind]
+    | _ :: _ :: _ :: _, _ => simp [compare2d, scatter2d, titleStep, generate2d, plotColumns, hc, Except.bind]
 
-theorem wrong_arity_3d (real synth : Frame α) (cs : List String) :
-    (cs ≠ [] → cs.length ≠ 3 →
-      compare3d real synth (some cs) = .error .valueError ∧ scatter3d real (some cs) = .error .valueError) ∧
+/-- As found: a non-empty request with FEWER than two names and no explicit title does not reach the arity
+test — building the default title indexes `columns[1]` first (`IndexError`, canonical kind `other`).  So
+"wrong arity ⇒ ValueError" fails for this shape (counter-example to the unconditional statement). -/
+theorem wrong_arity_2d_counterexample (real synth : Frame α) (c : String) :
+    compare2d real synth (some [c]) false = .error .other ∧ scatter2d real (some [c]) false = .error .other := by
+  simp [compare2d, scatter2d, titleStep, Except.bind]
+
+theorem wrong_arity_3d (real synth : Frame α) (cs : List String) (titled : Bool) :
+    (3 < cs.length →
+      compare3d real synth (some cs) titled = .error .valueError ∧
+      scatter3d real (some cs) titled = .error .valueError) ∧
+    (cs ≠ [] → cs.length < 3 →
+      compare3d real synth (some cs) true = .error .valueError ∧
+      scatter3d real (some cs) true = .error .valueError) ∧
     (real.cols.length ≠ 3 →
-      compare3d real synth none = .error .valueError ∧ scatter3d real none = .error .valueError) := by
-  constructor
+      compare3d real synth none titled = .error .valueError ∧ scatter3d real none titled = .error .valueError) := by
+  refine ⟨?_, ?_, ?_⟩
+  · intro hlen
+    match cs, hlen with
+    | _ :: _ :: _ :: _ :: t, _ =>
+      have h : ¬ (t.length + 1 + 1 + 1 + 1 < 3) := by omega
+      cases titled <;> simp [compare3d, scatter3d, titleStep, generate3d, plotColumns, Except.bind, h]
   · intro hne hlen
     match cs, hne, hlen with
-    | [_], _, _ => simp [compare3d, scatter3d, generate3d, plotColumns]
-    | [_, _], _, _ => simp [compare3d, scatter3d, generate3d, plotColumns]
-    | _ :: _ :: _ :: _ :: _, _, _ => simp [compare3d, scatter3d, generate3d, plotColumns]
+    | [_], _, _ => simp [compare3d, scatter3d, titleStep, generate3d, plotColumns, Except.bind]
+    | [_, _], _, _ => simp [compare3d, scatter3d, titleStep, generate3d, plotColumns, Except.bind]
   · intro hlen
     match hc : real.cols, hlen with
-    | [], _ => simp [compare3d, scatter3d, generate3d, plotColumns, hc]
-    | [_], _ => simp [compare3d, scatter3d, generate3d, plotColumns, hc]
-    | [_, _], _ => simp [compare3d, scatter3d, generate3d, plotColumns, hc]
-    | _ :: _ :: _ :: _ :: _, _ => simp [compare3d, scatter3d, generate3d, plotColumns, hc]
+    | [], _ => simp [compare3d, scatter3d, titleStep, generate3d, plotColumns, hc, Except.bind]
+    | [_], _ => simp [compare3d, scatter3d, titleStep, generate3d, plotColumns, hc, Except.bind]
+    | [_, _], _ => simp [compare3d, scatter3d, titleStep, generate3d, plotColumns, hc, Except.bind]
+    | _ :: _ :: _ :: _ :: _, _ =>
+      simp [compare3d, scatter3d, titleStep, generate3d, plotColumns, hc, Except.bind]
+
+theorem wrong_arity_3d_counterexample (real synth : Frame α) (c d : String) :
+    compare3d real synth (some [c, d]) false = .error .other ∧
+    scatter3d real (some [c]) false = .error .other := by
+  simp [compare3d, scatter3d, titleStep, Except.bind]
 
 end
 
